@@ -20,6 +20,7 @@ DECIDED = [
     "R-C14-FINISH-OWN: finish() may return only what this consumer holds: the container it drains is created by this consumer, not state shared by all consumers of the queue",
     "R-C14-REDELIVER: the only call sites that make a held message deliverable again (reject, requeue) are the processor's ladder, the runner's cancel/limit path, the Message API, "
     "consumer shutdown and Redis maintenance; the runner cancels the processing task before returning its message; maintenance rejects only after the execution timeout",
+    "R-C14-TAKE (bounce): a RabbitMQ delivery that was bounced is not also registered / handed to the local queue",
 ]
 NOT_DECIDED = ["cross-process interleavings as such", "RabbitMQ's server-side exclusive delivery of unacked messages (trusted)"]
 ASSUMPTIONS = ["asyncio atomicity between awaits (single process)", "Redis MULTI/EXEC atomicity"]
